@@ -295,6 +295,7 @@ def main(a):
     for f in findings:
         if f["id"] in cell_known:
             v.known_finding(f["what"] + " [%d cases]" % cell_known[f["id"]])
+    v.replay_witnesses(exe, findings, already=set(cell_known))
     v.coverage.update({
         "evaluations": sum(dist.values()), "distinct_nontrivial": len(nontrivial), "distribution": dist,
         "features": FEATURES,
